@@ -25,6 +25,7 @@ std::uint64_t verif_alloc_count(void) noexcept;       // allocations attempted s
 std::uint64_t verif_live_allocs(void) noexcept;       // live heap blocks (model) / counted (native)
 std::uint64_t verif_live_bytes(void) noexcept;
 std::uint64_t verif_mutex_held(void) noexcept;
+void verif_mutex_foreign(std::uint64_t on) noexcept;   // 1: every mutex is held by another thread from now on (lock waits = run ends, try_lock fails)
 // own sequentialisation (preemption bound 1): the k-th atomic access executed from now on is the preemption point at which verif_interfere() runs
 void verif_yield_arm(std::uint64_t k) noexcept;
 void verif_yield_disarm(void) noexcept;
